@@ -147,7 +147,9 @@ def run_case(spec):
         sq = np.einsum('ij,jk,ik->i', P[:, 0] - P[:, 1], M0, P[:, 0] - P[:, 1])
         lo, hi = np.percentile(sq[y == 1], 30), np.percentile(sq[y == -1], 70)
         bsets = {'default': None, 'floats': np.array([lo, hi]), 'ints': np.array([max(1, int(round(lo))), max(2, int(round(hi)))]),
-                 'ints_list': [max(1, int(round(lo))), max(2, int(round(hi)))], 'loose': np.array([sq.max() * 4, sq.min() / 4])}
+                 'ints_list': [max(1, int(round(lo))), max(2, int(round(hi)))], 'loose': np.array([sq.max() * 4, sq.min() / 4]),
+                 # a zero upper bound is documented behaviour (replaced by 1e-9): integer and float forms must agree
+                 'zero_float': np.array([0.0, hi]), 'zero_int': np.array([0, max(2, int(round(hi)))])}
         for bname, bnd in bsets.items():
             tr = [pr, 'gamma=%s' % gamma, 'bounds=' + bname]
             site = 'ITML.fit'
@@ -166,6 +168,12 @@ def run_case(spec):
                 M = est.get_mahalanobis_matrix()
                 conv = mi == 3000 and est.n_iter_ < mi - 1
                 certificate(site, rec, M, M0inv, gamma, tr + ['max_iter=%d' % mi], viol, conv, stats)
+                if bname == 'zero_int' and mi == 1:
+                    ef = ml.ITML(prior=prv.copy() if isinstance(prv, np.ndarray) else prv, gamma=gamma, max_iter=1, tol=tol, random_state=1)
+                    ef.fit(P.copy(), y.copy(), bounds=np.array([0.0, float(max(2, int(round(hi))))]))
+                    if not np.array_equal(ef.get_mahalanobis_matrix(), M):
+                        viol.append(V(site, 'integer_bounds_differ', 'bounds given as the integer array [0, %d] and as floats give different results'
+                                      % max(2, int(round(hi))), tr))
                 if bname == 'loose':
                     if np.abs(M - M0).max() > 1e-9 * np.abs(M0).max() or est.n_iter_ != 0:
                         viol.append(V(site, 'prior_not_returned', 'the prior satisfies all bounds but the result differs from it (%.3g, n_iter_=%d)'
